@@ -48,6 +48,8 @@ f_mul = z3.Function('fmul', Fl, Fl, Fl)
 f_div = z3.Function('fdiv', Fl, Fl, Fl)
 f_add = z3.Function('fadd', Fl, Fl, Fl)
 f_sub = z3.Function('fsub', Fl, Fl, Fl)
+f_floordiv = z3.Function('ffloordiv', Fl, Fl, Fl)
+f_fmod = z3.Function('ffmod', Fl, Fl, Fl)
 f_round = z3.Function('fround', Fl, z3.IntSort())     # int(round(x))
 f_trunc = z3.Function('ftrunc', Fl, z3.IntSort())     # int(x)
 f_pow10 = z3.Function('fpow10', z3.IntSort(), Fl)     # 1.0 * 10 ** s
@@ -678,6 +680,12 @@ class Engine(object):
                 fa, fb = self.as_float(a), self.as_float(b)
                 if isinstance(op, ast.Div):
                     return SV(VAL, Val.vflt(f_div(fa, fb)))
+                if isinstance(op, (ast.FloorDiv, ast.Mod)) and ai is not None and bi is not None:
+                    # integer operands: floor semantics (the int/int case of this method); float operands: uninterpreted (L4)
+                    self.safe(ctx, st, z3.Not(z3.And(both_int, bi == 0)), 'ZeroDivisionError', 'division by zero')
+                    ir = self.binop(ctx, st, op, SV(INT, ai), SV(INT, bi))
+                    fr = (f_floordiv if isinstance(op, ast.FloorDiv) else f_fmod)(fa, fb)
+                    return SV(VAL, z3.If(both_int, Val.vint(ir.z), Val.vflt(fr)))
                 fop = {ast.Add: f_add, ast.Sub: f_sub, ast.Mult: f_mul}.get(type(op))
                 if fop is None:
                     raise Unsupported('Val arithmetic %s' % type(op).__name__)
